@@ -89,6 +89,8 @@ func c19Types(quick bool) []string {
 	}
 	base = append(base, "DateTime('Europe/Berlin')", "DateTime('Nowhere/Land')", "DateTime64(3, 'Europe/Berlin')", "DateTime64(10)", "DateTime64('UTC')",
 		"Decimal(1, 0)", "Decimal(9, 2)", "Decimal(10, 2)", "Decimal(18, 4)", "Decimal(19, 4)", "Decimal(38, 10)", "Decimal(39, 10)", "Decimal(76, 20)", "Decimal(77, 1)", "Decimal(9,2)",
+		// the precision-only spelling (scale 0)
+		"Decimal(1)", "Decimal(9)", "Decimal(10)", "Decimal(18)", "Decimal(19)", "Decimal(38)", "Decimal(39)", "Decimal(76)", "Decimal(77)", "Decimal(0)",
 		"FixedString(1)", "FixedString(100)", "FixedString(0)", "FixedString(-1)", "FixedString(x)", "Enum8('a' = 1)", "Enum16('a' = -300, 'b' = 300)", "Enum8('q,x' = 1, ')' = 2)",
 		"IntervalMinute", "IntervalHour", "IntervalDay", "IntervalWeek", "IntervalMonth", "IntervalQuarter", "Nested(a UInt8)", "SimpleAggregateFunction(sum, UInt64)", "Object('json')", "Variant(String, UInt8)", "Dynamic")
 	for _, b := range base {
@@ -203,7 +205,7 @@ func c19Infer(c *vk.Ctx, id, ts string, soundness bool) (accepted bool) {
 
 // C19 — type inference is total and sound; type compatibility is symmetric.
 func C19(c *vk.Ctx) {
-	c.Rule("type strings: (a) every type the registry's base columns report, legal and illegal parameterisations (time zones, DateTime64 precisions 0..10, Decimal precisions at every width boundary, FixedString sizes incl. 0 / negative / non-numeric, enum definitions with quoted commas and parentheses, interval kinds, types the library does not know), each under Array / Nullable / LowCardinality / Map / Tuple wrappers to depth 1, a smaller base set to depth 2 (thorough 3); (a2) all histories Infer(A), [refused Infer(X)], Infer(B) on one ColAuto over a 30-type set (unrelated types, parameter-only siblings, refused types): whatever is accepted for B must come with a column whose type does not conflict with B and whose parameters are those a fresh ColAuto derives from B; (b) ALL token strings of length <= n (quick 5, thorough 6) over a 25-token alphabet of type names, punctuation, parameters and junk; (c) nesting depth 10000; (d) every single edit (deletion, insertion or replacement by one of ()',= 0a- at every position, every truncation) of the set-(a) types with at most 3 parentheses; (e) ALL character strings of length <= m (quick 5, thorough 6) over the alphabet {' a = 1 , space - ( )} as the parameter list of Enum8 / Enum16 / DateTime / DateTime64 / Decimal / Decimal64 / FixedString / Map / Tuple / Nested, bare and under Nullable / Array. Oracle: Infer never panics; when it accepts, the column's type does not conflict with the request and a block of that type written by the reference model decodes to the written values (for Nullable types also with zero bytes in the masked slots of the NULL rows, as servers write them). Conflicts is checked reflexive and symmetric on all ordered pairs of set (a) and against the documented equivalences, generated from families of spellings with one wire layout (enum / bare enum / underlying integer; DecimalN / Decimal(P, S) at both ends of each precision range; timestamps with and without zone; Map / Tuple types with 0 / 1 / 2 / 4 spaces after each comma), bare and under Array / Nullable / LowCardinality, with the pairs across families of one group required to conflict. distinct_nontrivial = distinct type strings + ordered pairs.")
+	c.Rule("type strings: (a) every type the registry's base columns report, legal and illegal parameterisations (time zones, DateTime64 precisions 0..10, Decimal precisions at every width boundary, FixedString sizes incl. 0 / negative / non-numeric, enum definitions with quoted commas and parentheses, interval kinds, types the library does not know), each under Array / Nullable / LowCardinality / Map / Tuple wrappers to depth 1, a smaller base set to depth 2 (thorough 3); (a2) all histories Infer(A), [refused Infer(X)], Infer(B) on one ColAuto over a 30-type set (unrelated types, parameter-only siblings, refused types): whatever is accepted for B must come with a column whose type does not conflict with B and whose parameters are those a fresh ColAuto derives from B; (b) ALL token strings of length <= n (quick 5, thorough 6) over a 25-token alphabet of type names, punctuation, parameters and junk; (c) nesting depth 10000; (d) every single edit (deletion, insertion or replacement by one of ()',= 0a- at every position, every truncation) of the set-(a) types with at most 3 parentheses; (e) ALL character strings of length <= m (quick 5, thorough 6) over the alphabet {' a = 1 , space - ( )} as the parameter list of Enum8 / Enum16 / DateTime / DateTime64 / Decimal / Decimal64 / FixedString / Map / Tuple / Nested, bare and under Nullable / Array. Oracle: Infer never panics; when it accepts, the column's type does not conflict with the request and a block of that type written by the reference model decodes to the written values (for Nullable types also with zero bytes in the masked slots of the NULL rows, as servers write them). Conflicts is checked reflexive and symmetric on all ordered pairs of set (a) and against the documented equivalences, generated from families of spellings with one wire layout (enum / bare enum / underlying integer; DecimalN / Decimal(P, S) / Decimal(P) at both ends of each precision range; timestamps with and without zone; Map / Tuple types with 0 / 1 / 2 / 4 spaces after each comma), bare and under Array / Nullable / LowCardinality, with the pairs across families of one group required to conflict. distinct_nontrivial = distinct type strings + ordered pairs.")
 	quick := c.Quick()
 	types := c19Types(quick)
 	accepted := 0
@@ -429,8 +431,8 @@ func C19(c *vk.Ctx) {
 		// families of one group conflict)
 		groups := [][][]string{
 			{{"Int8", "Enum8", "Enum8('a' = 1)", "Enum8('b' = 2, 'c' = 3)"}, {"Int16", "Enum16", "Enum16('a' = 1)", "Enum16('b' = -300, 'c' = 300)"}},
-			{{"Decimal32", "Decimal(1, 0)", "Decimal(9, 2)", "Decimal(9,2)"}, {"Decimal64", "Decimal(10, 2)", "Decimal(18, 4)"},
-				{"Decimal128", "Decimal(19, 4)", "Decimal(38, 10)"}, {"Decimal256", "Decimal(39, 10)", "Decimal(76, 20)"}},
+			{{"Decimal32", "Decimal(1, 0)", "Decimal(9, 2)", "Decimal(9,2)", "Decimal(1)", "Decimal(9)"}, {"Decimal64", "Decimal(10, 2)", "Decimal(18, 4)", "Decimal(10)", "Decimal(18)"},
+				{"Decimal128", "Decimal(19, 4)", "Decimal(38, 10)", "Decimal(19)", "Decimal(38)"}, {"Decimal256", "Decimal(39, 10)", "Decimal(76, 20)", "Decimal(39)", "Decimal(76)"}},
 			{{"DateTime", "DateTime('UTC')", "DateTime('Europe/Berlin')"}, {"DateTime64(3)", "DateTime64(3, 'UTC')", "DateTime64(9)"}},
 		}
 		// spacing after commas is insignificant, whatever its amount
